@@ -426,7 +426,24 @@ func (w *world) opFilter(n int, keep []int) {
 	for _, k := range keep {
 		ks[strconv.Itoa(k)] = true
 	}
-	w.tqs.GetByName(q.name).Filter(func(t task.Task) bool { return ks[taskID(t)] })
+	// Filter has a yield point of its own (inside the queue lock) with the queue's key: let it through
+	fdone := make(chan struct{})
+	go func() {
+		defer close(fdone)
+		w.tqs.GetByName(q.name).Filter(func(t task.Task) bool { return ks[taskID(t)] })
+	}()
+	for waiting := true; waiting; {
+		select {
+		case a := <-q.arrive:
+			a.Release()
+		case <-fdone:
+			waiting = false
+		case <-time.After(20 * time.Second):
+			w.bad = "hang"
+			w.c.Op(fmt.Sprintf("filter %d %s", n, joinInts(keep)), "hang")
+			return
+		}
+	}
 	w.c.Op(fmt.Sprintf("filter %d %s", n, joinInts(keep)), w.obs())
 }
 
